@@ -188,6 +188,14 @@ def gen_simple_case(rng, tier):
         opname = "ufunc"
     if opname in METRIC_OPS or rng.random() < 0.25:
         add_metrics(rng, gs)
+    if rng.random() < 0.3:
+        # non-index coordinates of the grid dataset (they ride along on results; lazy when the dataset is)
+        for j in range(rng.choice([1, 1, 2])):
+            cd = []
+            for a in rng.sample(axn, min(len(axn), rng.choice([1, 2]))):
+                cd.append(gs["axes"][a]["pos"][rng.choice(list(gs["axes"][a]["pos"]))])
+            gs["vars"][f"aux{j}"] = {"dims": cd, "data": {"gen": "randint", "seed": rng.randrange(10**6), "lo": 0, "hi": 9},
+                                     "coord": True, "attrs": {"long_name": f"aux{j}"}}
     has_metrics = "metrics" in gs["grid"]
     k = rng.choice([1, 1, 1, 2, 3])
     op_axes = rng.sample(axn, min(k, len(axn)))
